@@ -71,6 +71,13 @@ CHECKS = {
         note="Trusted: TLC, fork start method (wrappers inherited by workers), FIFO call queue of the executor. Runs whose recorded completion order is not the intended one are not judged (count in evidence). Exhaustive in schedules for the stated (N, W); inputs are a fixed family of scenarios.",
         ref="§3 C15",
     ),
+    "C19": dict(
+        level="model_checking",
+        technique="TLA+ spec ClassSelect.tla: the implementation's decision chain (CheckArgs/Candidate/Width/Modes/Refine actions) vs the declarative class table, model-checked by TLC on the complete finite request space; spec->code replay of every request through locate_droplets",
+        text="TLC enumerates every request (6 grid families x periodicity x modes 0-4 x width given/none x refine x 5 threshold rules = 1200; quick 288) and checks ClassAsRequested, ModesAsRequested, WidthCarried, WidthUnsetOtherwise, NoRaiseOtherwise, MustRaise, Termination. Every request is run through the real locate_droplets on an image with two droplets of that family (one on polar/spherical grids): class name, amplitude count, dimension, width (carried / unset / valid after refinement), zero amplitudes when unrefined, one dtype per result, the emulsion's dtype slot and Emulsion.data must match the spec's final state; ValueError exactly for modes>0 in 1-D.",
+        note="Trusted: TLC. Complete enumeration of the option space; one image per family. Found and repaired F4 (cylindrical x modes>0 x refine raised TypeError).",
+        ref="§3 C19",
+    ),
     "C20": dict(
         level="model_checking",
         technique="TLA+ spec Collections.tla (heap of droplet/Emulsion/EmulsionTimeCourse/DropletTrack objects with explicit identity; one action per public call) model-checked by TLC over all operation sequences up to the stated depth; every transition of the state graph replayed on real objects (spec->code) with full state, aliasing and query comparison",
